@@ -10,6 +10,7 @@ import (
 	"path/filepath"
 	"sort"
 	"strings"
+	"time"
 
 	"github.com/google/mtail/internal/exporter"
 	"github.com/google/mtail/internal/metrics"
@@ -56,6 +57,14 @@ var c06Others = []struct {
 	{"broken", "counter total\n/./ {\n  total++\n", "compile-error"},
 	{"runtime-errors", "counter total\ncounter errs\n/^(?P<w>\\w+)/ {\n  total++\n  errs += strtol($w, 10)\n}\n", "loads"},
 	{"hidden-other-kind", "hidden gauge total\ncounter seen_h\n/./ {\n  total = 1\n  seen_h++\n}\n", "loads"},
+	// same metric names and label tuples as the observed program, but these expire them: the store's
+	// garbage collection may only ever collect their own
+	{"expiring-by-first", "counter by_first by first\n/^(?P<first>[a-c])/ {\n  by_first[$first]++\n  del by_first[$first] after 1m\n}\n", "loads"},
+	{"expiring-total", "counter total by first\n/^(?P<first>[a-c])/ {\n  total[$first]++\n  del total[$first] after 1m\n}\n", "loads"},
+	// a name the observed program does not use, as a counter and as a gauge: whichever comes second
+	// (also as an edit of a program that already holds the name) must be refused while the other is there
+	{"extra-counter", "counter extra\n/./ {\n  extra++\n}\n", "depends"},
+	{"extra-gauge", "gauge extra\n/./ {\n  extra = 1\n}\n", "depends"},
 	{"hidden-same-name", "hidden counter total\ncounter visible\n/./ {\n  total++\n  visible = total\n}\n", "loads"},
 }
 
@@ -238,6 +247,23 @@ func propC06(e *Env) {
 		if !fedDone {
 			e.Fail("deadlock", "history [%s]: the line stream stalled; live: %s", hist(), liveString(e))
 			return
+		}
+		// now and then time passes and the store's garbage collection runs: the observed program expires
+		// nothing and has no limits, so this may never change its series
+		if e.Choose("gen", 3) == 0 {
+			e.S.Advance(2 * time.Minute)
+			var gerr error
+			gcDone := false
+			e.S.Go("gc", func() { gerr = store.Gc(); gcDone = true })
+			if !r.quiesce() {
+				return
+			}
+			did = append(did, "2 minutes pass, gc")
+			e.Probe("gc_pass")
+			if !gcDone || gerr != nil {
+				e.Fail("gc-broken-by-other-program", "history [%s]: Store.Gc did not finish or failed (finished=%v): %v", hist(), gcDone, gerr)
+				return
+			}
 		}
 		// the scrape as a whole must work and the observed program's series must be there
 		out, serr, ok := c06Scrape(e, r, ex, ps)
